@@ -2,6 +2,7 @@ import Adc.Wire
 import Adc.Unitary
 import Adc.Symmetry
 import Adc.Wick
+import Adc.Contraction
 /- Line-protocol driver: one JSON request per line on stdin, one JSON answer per line on stdout. -/
 open Lean Adc Adc.Wire
 
@@ -14,6 +15,14 @@ def firstBad (e : Expr) (c : List (List Step)) : Nat := Id.run do
     if (applySteps t s).isNone then return k
     k := k + 1
   return k
+
+partial def pTree (j : Json) : P CTree := do
+  match j.getObjVal? "leaf" with
+  | .ok o => pure (.leaf (← pObj o))
+  | .error _ =>
+    let s ← pIdxs (← fld j "sum")
+    let cs ← (← arr (← fld j "ch")).toList.mapM pTree
+    pure (.node s cs)
 
 def handle (j : Json) : P Json := do
   let op ← (← fld j "op").getStr?
@@ -96,6 +105,13 @@ def handle (j : Json) : P Json := do
     match wickExpr ts with
     | none => pure (Json.mkObj [("ok", false), ("why", "general index in a normal-ordered group")])
     | some e => pure (Json.mkObj [("ok", true), ("e", jExpr e)])
+  | "tree" =>        -- C16/C17: a nested contraction tree computes the term
+    let t ← pTerm (← fld j "t")
+    let tr ← pTree (← fld j "tree")
+    if treeOK t tr then pure (Json.mkObj [("ok", true)])
+    else pure (Json.mkObj [("ok", false),
+      ("objs", tr.objs.isPerm t.objs), ("nodup", nodupB tr.summedAll),
+      ("summed", tr.summedAll.isPerm t.contr), ("wf", wfTerm t), ("scoped", tr.scoped [])])
   | "ordersubs" =>   -- C08: order_substitutions
     let m ← pSub (← fld j "m")
     pure (Json.mkObj [("seq", jSub (orderSubs m))])
